@@ -22,7 +22,7 @@ int __real_pthread_create(pthread_t *, const pthread_attr_t *, void *(*)(void *)
 int __real_pthread_join(pthread_t, void **);
 
 #define MAXTRIALS 48
-#define NKINDS 8
+#define NKINDS 10
 static const size_t SIZES[] = { 9, 16, 17, 24, 40, 63, 64, 100, 200 };
 #define NSIZES (sizeof SIZES / sizeof SIZES[0])
 
@@ -128,6 +128,33 @@ static void *pipe_consumer(struct cmb_process *me, void *ctx)
     return NULL;
 }
 
+/* kind 8: ties - processes of EQUAL priority that queue in the SAME instant for one resource, and equal-priority pool holders of
+ * which one is preempted: who is served / robbed first must not depend on what the worker thread did before (allocation history) */
+struct tiew { struct cmb_resource *res; struct cmb_resourcepool *pool; uint64_t order, victims; unsigned n; };
+struct tiectx { struct tiew *w; unsigned me; };
+static void *tie_user(struct cmb_process *me, void *ctx)
+{
+    (void)me; struct tiectx *c = ctx; struct tiew *w = c->w;
+    if (cmb_resourcepool_acquire(w->pool, 1) != CMB_PROCESS_SUCCESS) return NULL;
+    if (cmb_resource_acquire(w->res) == CMB_PROCESS_SUCCESS) {        /* all of them ask at t = 0 */
+        w->order = w->order * 16 + (c->me + 1);
+        (void)cmb_process_hold(1.0);
+        cmb_resource_release(w->res);
+    }
+    const int64_t s = cmb_process_hold(100.0);
+    if (s == CMB_PROCESS_PREEMPTED) w->victims = w->victims * 16 + (c->me + 1);
+    else cmb_resourcepool_release(w->pool, 1);
+    return NULL;
+}
+static void *tie_boss(struct cmb_process *me, void *ctx)
+{
+    (void)me; struct tiew *w = ctx;
+    (void)cmb_process_hold(50.0);
+    for (unsigned i = 0; i < 2; i++) { (void)cmb_resourcepool_preempt(w->pool, 1); (void)cmb_process_hold(1.0); }
+    cmb_resourcepool_release(w->pool, 2);
+    return NULL;
+}
+
 /* kind 7: a condition observing a resource (observer tags, forwarded signals) */
 struct condw { struct cmb_resource *res; struct cmb_condition *cond; unsigned n; uint64_t woke; double t_last; };
 static bool res_is_free(const struct cmb_condition *c, const struct cmb_process *p, const void *ctx)
@@ -201,6 +228,28 @@ static void trial_compute(const tparams *tp, tresult *res)
         for (int i = 0; i < 3; i++) { cmb_process_terminate(p[i]); cmb_process_destroy(p[i]); }
         cmb_resourcepool_destroy(w.pool);
         cmb_event_queue_terminate();
+        break; }
+    case 8: {
+        cmb_event_queue_initialize(0.0);
+        struct tiew w; memset(&w, 0, sizeof w); w.n = 3 + tp->n % 5u;
+        /* an allocation history that differs from trial to trial: whatever the thread-local pools and malloc hand out next moves */
+        void *junk[8]; const unsigned nj = tp->seed % 8u; for (unsigned i = 0; i < nj; i++) junk[i] = malloc(24 + 16 * ((tp->seed >> 3) % 40u));
+        w.res = cmb_resource_create(); cmb_resource_initialize(w.res, "r");
+        w.pool = cmb_resourcepool_create(); cmb_resourcepool_initialize(w.pool, "p", w.n);
+        struct cmb_process *p[8]; struct tiectx c[8];
+        for (unsigned i = 0; i < w.n; i++) { c[i].w = &w; c[i].me = i; p[i] = cmb_process_create(); cmb_process_initialize(p[i], "t", tie_user, &c[i], 0); cmb_process_start(p[i]); }
+        struct cmb_process *boss = cmb_process_create(); cmb_process_initialize(boss, "b", tie_boss, &w, 5); cmb_process_start(boss);
+        baton_yield();
+        run_queue();
+        res->r[0] = w.order; res->r[1] = w.victims; res->r[2] = dbl(cmb_time()); res->r[3] = cmb_resourcepool_in_use(w.pool);
+        for (unsigned i = 0; i < w.n; i++) { cmb_process_terminate(p[i]); cmb_process_destroy(p[i]); }
+        cmb_process_terminate(boss); cmb_process_destroy(boss);
+        cmb_resourcepool_destroy(w.pool); cmb_resource_destroy(w.res);
+        for (unsigned i = 0; i < nj; i++) free(junk[i]);
+        cmb_event_queue_terminate();
+        break; }
+    case 9: {                                                         /* a trial that gives up: a few draws, then (in the experiment) cmb_logger_error */
+        res->r[0] = cmb_random_sfc64(); res->r[1] = dbl(cmb_random_exponential(1.0)); res->r[2] = 0xBA11ull;
         break; }
     case 3: {                                                         /* sampling only, flip- and gamma-heavy */
         uint64_t h = 0; double acc = 0.0;
@@ -290,6 +339,12 @@ static void trial_fn(void *vp)
     TR2("trial-done", i, w);
     active--;
     baton_yield();                                                   /* trial exit */
+    if (tp.kind % NKINDS == 9) {
+        /* the documented way for one trial to bail out: ends this worker thread, the experiment has to carry on with the other trials */
+        PROBE("exp.trial_bailed_out_with_logger_error");
+        cmb_logger_flags_off(CMB_LOGGER_ERROR);
+        cmb_logger_error(stderr, "trial %d gives up", i);
+    }
 }
 /* per-trial functions (documented use: your_trial_func == NULL, the first member of each trial struct is the function to call) */
 static void trial_fn_a(void *vp) { const ptrdiff_t off = (unsigned char *)vp - arr; if (off >= 0 && (size_t)off / esz < 48) fn_called[(size_t)off / esz] = 1; trial_fn(vp); }
